@@ -6,6 +6,7 @@ package history
 
 import (
 	"encoding/xml"
+	"sync"
 )
 
 // Iter is an iterator over message history.
@@ -16,6 +17,12 @@ type Iter struct {
 	h    *Handler
 	id   string
 	res  Result
+
+	// closing is closed by Close before it takes the handler's lock, so that a
+	// handler that is waiting (with the lock held) for this iterator to take a
+	// message can give up.
+	closing   chan struct{}
+	closeOnce sync.Once
 }
 
 // Next advances the iterator
@@ -45,6 +52,11 @@ func (i *Iter) Result() Result {
 // Future messages will still be received but will be handled by the fallback
 // handler instead.
 func (i *Iter) Close() error {
+	if i.closing != nil {
+		i.closeOnce.Do(func() {
+			close(i.closing)
+		})
+	}
 	i.h.remove(i.id)
 	return nil
 }
